@@ -62,6 +62,8 @@ PROBES = [
     ("probe-rzsw-storage-1d", {"bounds_image_load": 2},
      "@group(0) @binding(0) var t: texture_storage_1d<rgba8unorm, read>;\n"
      "@compute @workgroup_size(1) fn main() { let v = textureLoad(t, 1); }\n"),
+    ("probe-f16-polyfill-component-access", {"use_storage_io16": False},
+     "enable f16;\n@fragment fn main(@location(0) v: vec4<f16>) -> @location(0) vec4<f32> { return vec4<f32>(f32(v.w)); }\n"),
     ("probe-abstract-shift", {},
      "var<private> pv: i32 = 1;\n"
      "@compute @workgroup_size(1) fn main() { var acc: i32 = (4 << 19u) + pv; pv = acc; }\n"),
@@ -309,6 +311,20 @@ def run(ctx):
     for name, src in progs:
         for oname, opts in rng.shuffle(OPTION_SETS)[:per]:
             jobs.append((name, oname, opts, src))
+    # systematic families under fixed option sets: entry-point inputs read at several control-flow positions (with and
+    # without the 16-bit I/O capability), and modules with several entry points that share helpers (every option set:
+    # interface lists of SPIR-V >= 1.4, zero-initialisation)
+    for name, src in c02gen.io_read_site_programs():
+        for oname, opts in c02gen.IO_OPTION_SETS:
+            jobs.append((name, oname, opts, src))
+    import c15progs
+    seen_src = set()
+    for name, src, _m in c15progs.multi_entry_programs():
+        if src in seen_src:
+            continue
+        seen_src.add(src)
+        for oname, opts in OPTION_SETS:
+            jobs.append((name.split("@")[0], oname, opts, src))
     raw = nagarun.parallel_batches(tools["spvdrive"], "compile",
                                    [{"id": i, "src": j[3], "opts": j[2], "want": ["validate"]} for i, j in enumerate(jobs)],
                                    per_job_timeout=30.0, chunk=64)
